@@ -343,6 +343,16 @@ func (fs *FS) checkRenameTarget(oldname, newname string, oldIsDir bool) error {
 		// a directory cannot be moved below itself (os: EINVAL); doing so recursed forever
 		return hackpadfs.ErrInvalid
 	}
+	if !oldIsDir {
+		// a regular file never replaces an existing directory (os.Rename: EEXIST)
+		newInfo, err := fs.Stat(newname)
+		switch {
+		case err == nil && newInfo.IsDir():
+			return hackpadfs.ErrExist
+		case err != nil && !errors.Is(err, hackpadfs.ErrNotExist):
+			return err // the look-up itself failed: do not take that for "no such directory"
+		}
+	}
 	return nil
 }
 
